@@ -34,16 +34,18 @@ struct Registry {
   std::map<const void *, int> live; // address -> 1 live, 2 live but moved-from
   long constructed = 0, destroyed = 0, moves = 0;
   std::vector<std::string> errors;
+  mutable std::mutex mu;            // helper threads of a resize construct and destroy elements concurrently
+  typedef std::lock_guard<std::mutex> G;
   void err(const std::string &s) { if (errors.size() < 8) errors.push_back(s); }
-  void ctor(const void *p) { if (live.count(p)) err("object constructed over a live object"); live[p] = 1; ++constructed; }
-  void dtor(const void *p) { auto it = live.find(p); if (it == live.end()) err("destruction of an object that is not alive (double destroy?)"); else live.erase(it); ++destroyed; }
-  void moved_from(const void *p) { auto it = live.find(p); if (it != live.end()) it->second = 2; ++moves; }
-  bool is_live(const void *p) const { auto it = live.find(p); return it != live.end() && it->second == 1; }
-  bool is_husk(const void *p) const { auto it = live.find(p); return it != live.end() && it->second == 2; }
+  void ctor(const void *p) { G g(mu); if (live.count(p)) err("object constructed over a live object"); live[p] = 1; ++constructed; }
+  void dtor(const void *p) { G g(mu); auto it = live.find(p); if (it == live.end()) err("destruction of an object that is not alive (double destroy?)"); else live.erase(it); ++destroyed; }
+  void moved_from(const void *p) { G g(mu); auto it = live.find(p); if (it != live.end()) it->second = 2; ++moves; }
+  bool is_live(const void *p) const { G g(mu); auto it = live.find(p); return it != live.end() && it->second == 1; }
+  bool is_husk(const void *p) const { G g(mu); auto it = live.find(p); return it != live.end() && it->second == 2; }
 } R;
 
 static uint64_t g_poison = ~0ULL;       // equality throws when comparing against this key value
-static long g_ctor_fail_at = 0, g_ctor_count = 0; // value construction from arguments: the k-th throws
+static std::atomic<long> g_ctor_fail_at{0}, g_ctor_count{0}; // value construction from arguments: the k-th throws
 struct EqThrow {};
 struct CtorThrow {};
 
@@ -65,7 +67,7 @@ struct IVal {
   uint64_t v;
   IVal() : v(0) { R.ctor(this); }
   // construction from user arguments (may be made to throw)
-  explicit IVal(uint64_t x) : v(x) { if (g_ctor_fail_at && ++g_ctor_count == g_ctor_fail_at) throw CtorThrow(); R.ctor(this); }
+  explicit IVal(uint64_t x) : v(x) { if (g_ctor_fail_at.load() && ++g_ctor_count == g_ctor_fail_at.load()) throw CtorThrow(); R.ctor(this); }
   IVal(const IVal &o) : v(o.v) { R.ctor(this); }
   IVal(IVal &&o) noexcept : v(o.v) { R.ctor(this); R.moved_from(&o); }
   ~IVal() { R.dtor(this); }
@@ -235,7 +237,31 @@ static std::string trial(Tbl &orig, const OpSpec &o, long k, bool locked, const 
   if (!fired) return "done";
   const char *want = std::string(mode) == "alloc" ? "err badalloc" : "err ctorthrow";
   if (r.rfind("BAD", 0) == 0) return r.substr(4);
-  if (r != want) return "the failure did not reach the caller as an exception: result \"" + r + "\"";
+  if (r != want) {
+    if (r.rfind("err", 0) == 0) return "the failure reached the caller as a different exception: result \"" + r + "\"";
+    // The call absorbed the failure and reported success.  That is allowed only if it then had its complete normal
+    // effect: same answer, contents, hashpower and structure as a fault-free run from the same state.
+    Tbl ref(orig);
+    std::unique_ptr<LT> lref;
+    if (locked) lref.reset(new LT(ref.lock_table()));
+    std::string r2 = run_op(ref, lref, o);
+    lref.reset();
+    if (lt) lt.reset();
+    if (r2 != r) return "the failure did not reach the caller and the call answered \"" + r + "\" where a fault-free run answers \"" + r2 + "\"";
+    std::string p1, p2;
+    Abs a1 = abs_of(c, &p1), a2 = abs_of(ref, &p2);
+    if (!p1.empty()) return "the failure was swallowed and " + p1;
+    if (a1 != a2) return "the failure was swallowed and the call did not have its normal effect (contents differ from a fault-free run)";
+    // (with helper threads a rebuild inserts in a timing-dependent order, so nested expansions and the final
+    // hashpower may legitimately differ between two runs)
+    if (c.max_num_worker_threads() == 0 && c.hashpower() != ref.hashpower()) return "the failure was swallowed and the hashpower differs from a fault-free run";
+    std::string inv = check_inv(c);
+    if (inv != "inv ok") return "the failure was swallowed and the table is left in a broken state: " + inv;
+    std::string pl = probe_locks(c);
+    if (!pl.empty()) return pl;
+    if (!R.errors.empty()) return "lifetime: " + R.errors[0];
+    return "";
+  }
   if (lt) lt.reset();
   std::string p;
   Abs now = abs_of(c, &p);
@@ -269,6 +295,7 @@ static std::string sweep(Tbl &t, const OpSpec &o, bool locked, const char *mode)
     pid_t pid = fork();
     if (pid == 0) {
       close(fd[0]);
+      AllocCtl::note_fd() = fd[1];
       long live0 = AllocCtl::live_bytes.load();
       size_t objs0 = R.live.size();
       std::string res;
@@ -290,7 +317,10 @@ static std::string sweep(Tbl &t, const OpSpec &o, bool locked, const char *mode)
     while ((m = read(fd[0], buf, sizeof buf)) > 0) res.append(buf, buf + m);
     close(fd[0]);
     int st = 0; waitpid(pid, &st, 0);
-    if (!WIFEXITED(st) || WEXITSTATUS(st) != 0) return "FAIL k=" + std::to_string(k) + " the process crashed (signal " + std::to_string(WIFSIGNALED(st) ? WTERMSIG(st) : -1) + ") during or after the failed call";
+    // strip the "@type;" announcements of injected failures
+    std::string notes;
+    while (!res.empty() && res[0] == '@') { size_t e = res.find(';'); if (e == std::string::npos) { notes += res; res.clear(); break; } notes += res.substr(1, e - 1) + " "; res = res.substr(e + 1); }
+    if (!WIFEXITED(st) || WEXITSTATUS(st) != 0) return "FAIL k=" + std::to_string(k) + " the process crashed (signal " + std::to_string(WIFSIGNALED(st) ? WTERMSIG(st) : -1) + ") during or after the failed call; workers=" + std::to_string(t.max_num_worker_threads()) + " failed-allocation-of=" + (notes.empty() ? "-" : notes);
     if (res == "done") { n = k - 1; return "swept n=" + std::to_string(n); }
     if (res != "ok") return "FAIL k=" + std::to_string(k) + " " + res;
   }
@@ -308,6 +338,7 @@ int main() {
     std::string out;
     if (w == "cfg") { int hm; double mlf; is >> hm; g_hash_mode = hm; out = "ok"; }
     else if (w == "new") { size_t n; is >> n; lt.reset(); t.reset(new Tbl(n)); out = "ok"; }
+    else if (w == "workers") { size_t x; is >> x; t->max_num_worker_threads(x); out = "ok"; }
     else if (w == "mlf") { double x; is >> x; t->minimum_load_factor(x); out = "ok"; }
     else if (w == "mhp") { size_t x; is >> x; try { t->maximum_hashpower(x); out = "ok"; } catch (std::invalid_argument &) { out = "err invalid"; } }
     else if (w == "poison") { is >> g_poison; out = "ok"; }
